@@ -4,6 +4,7 @@ package main
 
 import (
 	"go/types"
+	"strings"
 
 	"golang.org/x/tools/go/ssa"
 )
@@ -139,7 +140,15 @@ func (fr *Frame) lookup(x *ssa.Lookup) Value {
 
 func (s *State) chanName(v Value) string {
 	if c, ok := v.(*ChanV); ok && c.Obj != nil {
-		return c.Obj.Name
+		n := c.Obj.Name
+		if n == "ctx.Done" || n == "time.After" {
+			return n
+		}
+		// channels are called after the variable or field that holds them: "(ch).chWrite" -> "chWrite"
+		if i := strings.LastIndexAny(n, ".)"); i >= 0 {
+			n = n[i+1:]
+		}
+		return n
 	}
 	return "?"
 }
@@ -176,6 +185,7 @@ func (fr *Frame) rangeNext(x *ssa.Next) Value {
 	key := s.symValue(mt.Key(), "range.key")
 	val := s.symValue(mt.Elem(), "range.val")
 	s.logEvent("range.next", m, okT, key)
+	s.log[len(s.log)-1].ArgT = []types.Type{types.Typ[types.Bool], mt.Key()}
 	s.rangeKeys = append(s.rangeKeys, key)
 	return &TupleV{Vals: []Value{okT, key, val}}
 }
@@ -244,6 +254,7 @@ func (fr *Frame) recv(x *ssa.UnOp, ch Value) Value {
 	v := s.symValue(et, "recv."+s.chanName(ch))
 	s.blocking++
 	s.logEvent("recv", ch, v)
+	s.log[len(s.log)-1].ArgT = []types.Type{et}
 	if x.CommaOk {
 		return &TupleV{Vals: []Value{v, s.freshVar("recv.ok", BoolSort)}}
 	}
@@ -274,6 +285,7 @@ func (fr *Frame) selectStmt(x *ssa.Select) Value {
 			if i == idx {
 				v := s.symValue(et, "recv."+s.chanName(chv))
 				s.logEvent("recv", chv, v)
+				s.log[len(s.log)-1].ArgT = []types.Type{et}
 				vals = append(vals, v)
 			} else {
 				vals = append(vals, s.zeroValue(et))
